@@ -1,0 +1,13 @@
+//go:build verif
+
+package reconnect
+
+// VerifDone returns the channel that is closed once the transport's context is cancelled
+// (Close, or the redial budget exhausted in the write loop).
+func (r *Transport) VerifDone() <-chan struct{} { return r.ctx.Done() }
+
+// VerifQueueLens returns the number of write requests waiting for the write loop and the number
+// of read results waiting for Read.
+func (r *Transport) VerifQueueLens() (writes, reads int) {
+	return len(r.writeReqCh), len(r.readResCh)
+}
